@@ -498,6 +498,45 @@ def run_array(c):
     return out
 
 
+def run_removal(c):
+    """A positional Collection from which items were removed before the trip; after the trip one item is
+    appended to the original and to the reloaded model: both must have the same composition."""
+    classes = [vclasses.G2, vclasses.G3, vclasses.T3, vclasses.G2]
+
+    def component(i):
+        cls = classes[i % 4]
+        m = af.Model(cls)
+        return m
+
+    def view(m):
+        keys = [k for k in m.__dict__ if not k.startswith("_") and k not in ("id", "item_number")]
+        return {"keys": keys, "item_number": m.__dict__.get("item_number"), "count": m.prior_count,
+                "paths": sorted(list(map(str, p)) for p in m.paths)}
+    model = af.Collection([component(i) for i in range(c["n"])])
+    for idx in sorted(c["remove"], reverse=True):
+        model.remove(getattr(model, str(idx)))
+    out = {"before": view(model), "steps": []}
+    if c.get("frozen"):
+        _ = model.prior_count
+        model.freeze()
+    cur = model
+    for st in c["steps"]:
+        try:
+            cur = trip(cur, st["form"], st.get("variant"))
+        except BaseException as e:  # noqa
+            out["steps"].append({"exc": type(e).__name__, "msg": str(e)[:200]})
+            return out
+        out["steps"].append({"ok": True, "view": view(cur)})
+    try:
+        for m in (model, cur):
+            m.unfreeze()
+            m.append(af.Model(vclasses.N1))
+        out["after_append"] = {"original": view(model), "reloaded": view(cur)}
+    except BaseException as e:  # noqa
+        out["after_append"] = {"exc": type(e).__name__, "msg": str(e)[:200]}
+    return out
+
+
 def probe():
     """Which of the C08 repairs does this tree contain?  Four fixed inputs, one per modelled repair."""
     out = {"dill": dill is not None}
@@ -551,6 +590,8 @@ def main():
         try:
             if c.get("kind") == "probe":
                 out.append({"ok": probe()})
+            elif c.get("kind") == "removal":
+                out.append({"ok": run_removal(c)})
             elif c.get("kind") == "modified":
                 out.append({"ok": run_modified(c)})
             elif c.get("kind") == "array":
